@@ -135,11 +135,15 @@ Record acase := mkAC {
   c_rsv : list reg                    (* reserved_registers passed to assemble_subroutine *)
 }.
 
-(* result code: 0 ok; +1 instruction lists differ; +2 oracle (source meaning) differs;
+(* result code: 0 ok; +1 instruction lists differ (+8 more: the model assembles, the implementation refused); +2 oracle (source meaning) differs;
    +4 model interpreter differs from the executor on the assembled program *)
 Definition check_prog (pr : aparams) (t : list row) (rsv : list reg) (P : option (list acmd)) (out : outcome)
            (fuel : nat) (start : astate) (ob : option obs) : Z :=
-  let a := if outcome_eqb (model_outcome pr t rsv P) out then 0 else 1 in
+  let mo := model_outcome pr t rsv P in
+  (* +8: the model assembles the program (unnamed R registers are available, labels are distinct, every
+     instruction is one of the flavour with operands of the right kinds) but the implementation refused it *)
+  let a := if outcome_eqb mo out then 0
+           else match mo, out with Instrs _, Failed _ => 9 | _, _ => 1 end in
   match P, ob with
   | Some P, Some o =>
       let b := if src_matches pr rsv P fuel start o then 0 else 2 in
